@@ -890,7 +890,7 @@ def explore(harness: Callable[[Ctx], Any], workers: int = 0, split_depth: int = 
         pool = mp.Pool(workers)
         try:
             jobs = [(harness, it, deadline, timeout_ms) for it in items]
-            it = pool.imap_unordered(_worker, jobs, chunksize=max(1, min(16, len(jobs) // (workers * 32))))
+            it = pool.imap_unordered(_worker, jobs, chunksize=1)  # (chunksize 1: the iterator supports next(timeout))
             while True:
                 try:
                     r = it.next(timeout=max(60.0, deadline - time.time() + 120.0))
